@@ -232,7 +232,24 @@ afterR8:
 			}
 			if ld, ok := t.V.(*ssa.UnOp); ok && t.Op == "field" && t.Sym == "score" && len(accStores) == 1 {
 				if fa, ok := ld.X.(*ssa.FieldAddr); ok {
-					return fa.X == accStores[0].Addr.(*ssa.FieldAddr).X && instrDominates(accStores[0], ld)
+					if fa.X == accStores[0].Addr.(*ssa.FieldAddr).X && instrDominates(accStores[0], ld) {
+						return true
+					}
+					// the entry is either the stored one the penalty was just added to, or a fresh one
+					// created with this penalty as its score: its score is the new score either way
+					if phi, ok := fa.X.(*ssa.Phi); ok {
+						good := len(phi.Edges) > 0
+						for _, e := range phi.Edges {
+							if e == accStores[0].Addr.(*ssa.FieldAddr).X {
+								continue
+							}
+							if cl, ok := e.(*ssa.Call); ok && CalleeName(cl.Common()) == "p2p.newPeerInfo" && len(cl.Call.Args) == 2 && T(cl.Call.Args[1]).String() == "p2" {
+								continue
+							}
+							good = false
+						}
+						return good
+					}
 				}
 			}
 			return false
